@@ -315,7 +315,7 @@ class _Server:
 
 class Conn:
     """Directed byte stream src -> dst."""
-    __slots__ = ('src', 'dst', 'buf', 'proto', 'closed', 'lost', 'log', 'delivered', 'chunks', 'reset')
+    __slots__ = ('src', 'dst', 'buf', 'proto', 'closed', 'lost', 'log', 'delivered', 'chunks', 'reset', 'refs')
 
     def __init__(self, src, dst):
         self.src, self.dst = src, dst
@@ -327,6 +327,7 @@ class Conn:
         self.delivered = 0
         self.chunks = 0
         self.reset = False         # stream end is an error (ConnectionResetError) instead of EOF
+        self.refs = []             # (absolute stream offset, mutable object written): read again when its bytes leave (socket transports do not copy)
 
 
 class VTransport:
@@ -334,10 +335,17 @@ class VTransport:
         self.conn, self.rev, self.world = conn, rev, world
 
     def write(self, data):
+        obj = data
         data = bytes(data)
         w, c = self.world, self.conn
+        if c.closed and c.src not in w.crashed:
+            w.writes_after_close.append((c.src, c.dst, len(data)))
         if c.src in w.crashed or c.closed:
             return
+        if not isinstance(obj, bytes) and w.crash_at is None:
+            # asyncio's socket transports keep a written bytearray/memoryview by reference while the socket is not writable (no copy since 3.12):
+            # what leaves is the object's content at that later time
+            c.refs.append((len(c.log), obj))
         w.write_log[c.src].append((w.sent[c.src], len(data), c.dst))
         if w.crash_at is not None and c.src == w.crash_at[0]:
             room = w.crash_at[1] - w.sent[c.src]
@@ -378,7 +386,7 @@ class World:
 
     def __init__(self, m, t, no_prss=False, seed=0, policy='uniform', sec_param=30, no_barrier=False,
                  crash_at=None, crash_mode='eof', refuse_prob=0.2, base_port=11000, clear_caches=True,
-                 record_sched=False, history=None, on_observed=None):
+                 record_sched=False, history=None, on_observed=None, drain_after=False):
         """history: how the runtimes arrive at threshold t (None: constructed with it, as with -T t).
              ('assign', t0): constructed with threshold t0, then `mpc.threshold = t` before start() (as demos/parallelsort.py does);
              ('session', t0): a complete earlier session (start, warm-up program, shutdown) at threshold t0 on the same Runtime objects,
@@ -405,6 +413,8 @@ class World:
                 history = ('restart', t)
             else:
                 history = None
+        self.drain_after = drain_after       # after every party has returned: let what is still runnable run (work that outlived shutdown() shows on the wire)
+        self.writes_after_close = []
         self.history = history
         self.on_observed = on_observed       # callable run when the observed session begins (monitors of a check forget the earlier session)
         self.t_main = t
@@ -690,6 +700,18 @@ class World:
                         if rng.random() < 0.3:
                             continue
                         k = rng.randint(1, len(c.buf)) if rng.random() < 0.5 else len(c.buf)
+                    if c.refs:
+                        base = len(c.log) - len(c.buf)          # stream offset of c.buf[0]
+                        keep = []
+                        for off, obj in c.refs:
+                            cur = bytes(obj)
+                            lo = off - base
+                            if lo >= 0 and lo + len(cur) <= len(c.buf):
+                                c.buf[lo:lo + len(cur)] = cur
+                                c.log[off:off + len(cur)] = cur
+                                if lo + len(cur) > k:
+                                    keep.append((off, obj))
+                        c.refs = keep
                     chunk = bytes(c.buf[:k])
                     del c.buf[:k]
                     c.delivered += k
@@ -706,6 +728,14 @@ class World:
             L.iteration(arrivals)
             self.steps += 1
         self.status = 'DONE'
+        if self.drain_after and not self.crashed:
+            # every party has returned from its program (and from shutdown()): whatever MPyC work is still runnable now outlived the shutdown
+            for _ in range(20000):
+                live = [L for L in self.loops if not L.stopped and L.ready]
+                if not live:
+                    break
+                for L in live:
+                    L.iteration([])
 
     def _deliver(self, c, chunk):
         return lambda: self.ctx[c.dst].run(c.proto.data_received, chunk)
@@ -805,6 +835,9 @@ class World:
                     probs.append(f'message delivered but never handed to its receive on {i}->{j} label {pc}')
             if c.proto is not None and getattr(c.proto, 'buffers', None):
                 probs.append(f'{len(c.proto.buffers)} leftover buffer entries at {j} for peer {i}')
+            late = [x for x in self.writes_after_close if x[0] == i and x[1] == j]
+            if late:
+                probs.append(f'{len(late)} message(s) written on {i}->{j} after the connection was closed by shutdown (first: {late[0][2]} bytes): never delivered')
             if c.proto is not None and len(getattr(c.proto, 'bytes', b'')):
                 probs.append(f'undigested bytes at {j} for peer {i}')
         return probs
